@@ -1,8 +1,323 @@
-//! C13 correspondence streams (stub).
-use crate::util::Opts;
+//! C13: DIV/TIMA correspondence streams, driven through the real `Timer` public API and through the
+//! `IO::set_byte`/`get_byte`/`run_clock_cycles` glue at 0xFF04..0xFF07 / IF bit 2.
+//!
+//! line:  c13.<sub> ops=<op,op,…> [pops=<op,…>] | obs=<o,o,…> [pobs=<o,…>]
+//!   op  = d (DIV write) | t<v> (TIMA) | m<v> (TMA) | c<v> (TAC) | r<n>+<n>+… (run_cycles batches;
+//!         one observation after the last batch, returned flags OR-ed)
+//!   obs = div:tima:tma:tac:flag:cycle_count:enabled_mask:timer_clock_mask after every op (the last three
+//!         through the `verif_state` hook), or `P` if the call panicked (ends the line)
+//!
+//! sub-streams
+//!   api    random interleavings, 50 ops, Timer API                      (quick 10^4, thorough 10^6; --shard i/n)
+//!   io     random interleavings through IO (registers by bus address, time by `run_clock_cycles` in multiples
+//!          of 4 clocks, flag = IF bit 2)
+//!   part   same history twice, the second time with every run split into random batches (implementation vs itself)
+//!   phase  exhaustive: TAC old 0..7 × phase 0..1023 × TAC new 0..7 (+ upper-bit variants) × TIMA {0x00,0xFF}:
+//!          the TAC-write glitch at every divider phase, then exactly one period of the new selection
+//!   big    batches ≥ 2^32 − 2^16 / usize values ≥ 2^32 (outside the property's domain: model tie of the
+//!          `as u32` truncation and the overflow check)
+use crate::devices::interrupts::InterruptFlag;
+use crate::devices::io::IO;
+use crate::devices::timer::Timer;
+use crate::timing::ClockCycles;
+use crate::util::{Opts, Rng};
 use std::io::Write;
 
-pub fn run(sub: &str, _opts: &Opts, _w: &mut dyn Write) {
-  eprintln!("stream c13.{} not implemented", sub);
-  std::process::exit(2);
+#[derive(Clone, Debug)]
+enum Op { Div, Tima(u8), Tma(u8), Tac(u8), Run(Vec<u64>) }
+
+fn enc(ops: &[Op]) -> String {
+  let mut s = String::new();
+  for (i, op) in ops.iter().enumerate() {
+    if i > 0 { s.push(','); }
+    match op {
+      Op::Div => s.push('d'),
+      Op::Tima(v) => s.push_str(&format!("t{}", v)),
+      Op::Tma(v) => s.push_str(&format!("m{}", v)),
+      Op::Tac(v) => s.push_str(&format!("c{}", v)),
+      Op::Run(bs) => {
+        s.push('r');
+        for (j, b) in bs.iter().enumerate() { if j > 0 { s.push('+'); } s.push_str(&b.to_string()); }
+      }
+    }
+  }
+  s
+}
+
+fn dec(s: &str) -> Vec<Op> {
+  let mut v = Vec::new();
+  for t in s.split(',') {
+    if t.is_empty() { continue; }
+    let (k, rest) = t.split_at(1);
+    v.push(match k {
+      "d" => Op::Div,
+      "t" => Op::Tima(rest.parse().unwrap()),
+      "m" => Op::Tma(rest.parse().unwrap()),
+      "c" => Op::Tac(rest.parse().unwrap()),
+      "r" => Op::Run(rest.split('+').map(|x| x.parse().unwrap()).collect()),
+      _ => panic!("bad op {}", t),
+    });
+  }
+  v
+}
+
+fn obs_timer(t: &Timer, flag: bool) -> String {
+  let (cc, _c, _m, en, mask) = t.verif_state();
+  format!("{}:{}:{}:{}:{}:{}:{}:{}", t.get_divider(), t.get_counter(), t.get_modulo(), t.get_timer_control(),
+    flag as u8, cc, en, mask)
+}
+
+/// the ops through the Timer API; `guard` = run each `run_cycles` under catch_unwind (big stream)
+fn drive_api(ops: &[Op], guard: bool) -> String {
+  let mut t = Timer::new();
+  let mut out: Vec<String> = Vec::with_capacity(ops.len());
+  for op in ops {
+    let mut flag = false;
+    match op {
+      Op::Div => t.reset_divider(),
+      Op::Tima(v) => t.set_counter(*v),
+      Op::Tma(v) => t.set_modulo(*v),
+      Op::Tac(v) => flag = t.set_timer_control(*v) == InterruptFlag::timer(),
+      Op::Run(bs) => {
+        for b in bs {
+          if guard {
+            let r = std::panic::catch_unwind(std::panic::AssertUnwindSafe(|| t.run_cycles(ClockCycles(*b as usize))));
+            match r {
+              Ok(f) => flag |= f == InterruptFlag::timer(),
+              Err(_) => { out.push("P".to_string()); return out.join(","); }
+            }
+          } else {
+            let f = t.run_cycles(ClockCycles(*b as usize));
+            // the flag is either empty or exactly the timer bit
+            assert!(f == InterruptFlag::timer() || f == InterruptFlag::empty());
+            flag |= f == InterruptFlag::timer();
+          }
+        }
+      }
+    }
+    out.push(obs_timer(&t, flag));
+  }
+  out.join(",")
+}
+
+struct IoRig { io: IO, vram: Box<[u8]>, oam: Box<[u8]> }
+
+impl IoRig {
+  fn new() -> Self {
+    IoRig { io: IO::new(), vram: vec![0u8; 0x2000].into_boxed_slice(), oam: vec![0u8; 0xa0].into_boxed_slice() }
+  }
+  /// the ops through the bus glue: register writes by address, reads by address, time through
+  /// `IO::run_clock_cycles`, the interrupt request read back as IF (0xFF0F) bit 2 (cleared before each op)
+  fn drive(&mut self, ops: &[Op]) -> String {
+    self.io.timer = Box::new(Timer::new());
+    let mut out: Vec<String> = Vec::with_capacity(ops.len());
+    for op in ops {
+      self.io.set_byte(0xff0f, 0);
+      match op {
+        Op::Div => self.io.set_byte(0xff04, 0x5a),
+        Op::Tima(v) => self.io.set_byte(0xff05, *v),
+        Op::Tma(v) => self.io.set_byte(0xff06, *v),
+        Op::Tac(v) => self.io.set_byte(0xff07, *v),
+        Op::Run(bs) => for b in bs { self.io.run_clock_cycles(ClockCycles(*b as usize), &self.vram, &self.oam); },
+      }
+      let flag = self.io.get_byte(0xff0f) & 4 != 0;
+      let (cc, _c, _m, en, mask) = self.io.timer.verif_state();
+      out.push(format!("{}:{}:{}:{}:{}:{}:{}:{}", self.io.get_byte(0xff04), self.io.get_byte(0xff05),
+        self.io.get_byte(0xff06), self.io.get_byte(0xff07), flag as u8, cc, en, mask));
+    }
+    out.join(",")
+  }
+}
+
+const BOUNDARY: [u64; 16] = [0, 1, 3, 4, 15, 16, 17, 63, 64, 65, 255, 256, 257, 1023, 1024, 1025];
+const PERIODS: [u64; 4] = [16, 64, 256, 1024];
+const WRAPS: [u64; 10] = [4095, 4096, 4097, 8191, 8192, 65535, 65536, 65537, 131071, 131072];
+const HUGE: [u64; 5] = [1 << 20, (1 << 20) + 1, (1 << 20) - 1, 3 * 65536 + 5, 1 << 17];
+
+/// batch size; `heavy` lines also draw the long ones (65535/65536/2^20 …)
+fn gen_run(rng: &mut Rng, heavy: bool, cap: u64) -> u64 {
+  let n = match rng.below(1000) {
+    0..=449 => rng.below(48),
+    450..=699 => *rng.pick(&BOUNDARY),
+    700..=879 => rng.below(5000),
+    880..=959 => { let p = *rng.pick(&PERIODS); (p * (1 + rng.below(8)) + rng.below(3)).saturating_sub(1) }
+    _ => if !heavy { rng.below(300) } else {
+      match rng.below(40) {
+        0..=19 => *rng.pick(&WRAPS),
+        20..=35 => rng.below(70224 * 2),
+        _ => *rng.pick(&HUGE),
+      }
+    }
+  };
+  n.min(cap)
+}
+
+fn gen_tac(rng: &mut Rng) -> u8 {
+  if rng.chance(4, 5) { rng.below(8) as u8 } else { rng.u8() }
+}
+
+fn gen_byte(rng: &mut Rng) -> u8 {
+  match rng.below(4) { 0 => *rng.pick(&[0u8, 1, 0x7f, 0x80, 0xfd, 0xfe, 0xff]), 1 => 0xff, _ => rng.u8() }
+}
+
+fn gen_case(rng: &mut Rng, nops: usize, heavy: bool, cap: u64) -> Vec<Op> {
+  let mut ops = Vec::with_capacity(nops);
+  // start at an arbitrary divider phase half of the time (still disabled: the fast path)
+  if rng.chance(1, 2) { ops.push(Op::Run(vec![rng.below(65536).min(cap)])); }
+  while ops.len() < nops {
+    let op = match rng.below(100) {
+      0..=47 => Op::Run(vec![gen_run(rng, heavy, cap)]),
+      48..=65 => Op::Tac(gen_tac(rng)),
+      66..=79 => Op::Tima(gen_byte(rng)),
+      80..=88 => Op::Tma(gen_byte(rng)),
+      89..=94 => Op::Div,
+      _ => { // overflow set-up: TIMA close to 0xFF, then about one period
+        ops.push(Op::Tima(0xff - rng.below(2) as u8));
+        Op::Run(vec![*rng.pick(&PERIODS) + rng.below(3) - 1])
+      }
+    };
+    ops.push(op);
+  }
+  ops.truncate(nops.max(1));
+  ops
+}
+
+/// split every run into random batches (same total), including empty batches
+fn split_runs(rng: &mut Rng, ops: &[Op]) -> Vec<Op> {
+  ops.iter().map(|op| match op {
+    Op::Run(bs) => {
+      let mut rest: u64 = bs.iter().sum();
+      let mut parts = Vec::new();
+      while rest > 0 && parts.len() < 12 {
+        let b = match rng.below(6) {
+          0 => 0,
+          1 => 1,
+          2 => *rng.pick(&BOUNDARY),
+          3 => rng.below(rest + 1),
+          4 => rest,
+          _ => rng.below(64),
+        }.min(rest);
+        parts.push(b);
+        rest -= b;
+      }
+      if rest > 0 || parts.is_empty() { parts.push(rest); }
+      if rng.chance(1, 4) { parts.push(0); }
+      Op::Run(parts)
+    }
+    o => o.clone(),
+  }).collect()
+}
+
+fn shard_of(opts: &Opts) -> (u64, u64) {
+  match opts.get("shard") {
+    Some(s) => { let mut it = s.split('/'); (it.next().unwrap().parse().unwrap(), it.next().unwrap().parse().unwrap()) }
+    None => (0, 1),
+  }
+}
+
+fn case_rng(seed: u64, stream: u64, i: u64) -> Rng {
+  Rng::new(seed ^ stream.wrapping_mul(0xD1B54A32D192ED03) ^ i.wrapping_mul(0x9E3779B97F4A7C15).rotate_left(17))
+}
+
+pub fn run(sub: &str, opts: &Opts, w: &mut dyn Write) {
+  let (shard, nshards) = shard_of(opts);
+  // replay: re-run exactly the ops of the given line
+  if let Some(line) = opts.get("replay-line") {
+    let get = |k: &str| line.split_whitespace().find_map(|t| t.strip_prefix(k).map(|s| s.to_string()));
+    let ops = dec(&get("ops=").unwrap_or_default());
+    match sub {
+      "io" => { let mut rig = IoRig::new(); writeln!(w, "c13.io ops={} | obs={}", enc(&ops), rig.drive(&ops)).unwrap(); }
+      "part" => {
+        let pops = dec(&get("pops=").unwrap_or_default());
+        writeln!(w, "c13.part ops={} pops={} | obs={} pobs={}", enc(&ops), enc(&pops), drive_api(&ops, false), drive_api(&pops, false)).unwrap();
+      }
+      "big" => { std::panic::set_hook(Box::new(|_| {})); writeln!(w, "c13.big ops={} | obs={}", enc(&ops), drive_api(&ops, true)).unwrap(); }
+      _ => writeln!(w, "c13.{} ops={} | obs={}", sub, enc(&ops), drive_api(&ops, false)).unwrap(),
+    }
+    return;
+  }
+  match sub {
+    "api" => {
+      let n = opts.get_usize("n", if opts.thorough { 1_000_000 } else { 10_000 }) as u64;
+      for i in 0..n {
+        if i % nshards != shard { continue; }
+        let mut rng = case_rng(opts.seed, 1, i);
+        // one line in 8 (thorough: one in 40) draws long batches
+        let heavy = i % (if opts.thorough { 40 } else { 8 }) == 0;
+        let ops = gen_case(&mut rng, 50, heavy, u64::MAX);
+        writeln!(w, "c13.api ops={} | obs={}", enc(&ops), drive_api(&ops, false)).unwrap();
+      }
+    }
+    "io" => {
+      let n = opts.get_usize("n", if opts.thorough { 100_000 } else { 2_000 }) as u64;
+      let mut rig = IoRig::new();
+      for i in 0..n {
+        if i % nshards != shard { continue; }
+        let mut rng = case_rng(opts.seed, 2, i);
+        // `IO::run_clock_cycles` also advances the LCD, which steps 4 clocks at a time (the CPU only ever
+        // reports whole machine cycles): batches are multiples of 4 here; odd sizes are the api stream's job
+        let ops: Vec<Op> = gen_case(&mut rng, 50, i % 16 == 0, 70224 * 2).into_iter().map(|op| match op {
+          Op::Run(bs) => Op::Run(bs.into_iter().map(|b| b & !3).collect()),
+          o => o,
+        }).collect();
+        writeln!(w, "c13.io ops={} | obs={}", enc(&ops), rig.drive(&ops)).unwrap();
+      }
+    }
+    "part" => {
+      let n = opts.get_usize("n", if opts.thorough { 300_000 } else { 4_000 }) as u64;
+      for i in 0..n {
+        if i % nshards != shard { continue; }
+        let mut rng = case_rng(opts.seed, 3, i);
+        let heavy = i % (if opts.thorough { 40 } else { 8 }) == 0;
+        let ops = gen_case(&mut rng, 30, heavy, u64::MAX);
+        let pops = split_runs(&mut rng, &ops);
+        writeln!(w, "c13.part ops={} pops={} | obs={} pobs={}", enc(&ops), enc(&pops),
+          drive_api(&ops, false), drive_api(&pops, false)).unwrap();
+      }
+    }
+    "phase" => {
+      // exhaustive over old TAC × divider phase (bits 0..9) × new TAC × TIMA at the moment of the write
+      let mut news: Vec<u8> = (0..8).collect();
+      news.extend_from_slice(&[0xf8, 0xfc, 0x0d, 0xff]);
+      let mut i = 0u64;
+      for old in 0..8u8 { for phase in 0..1024u64 { for &new in &news { for &tima in &[0u8, 0xff] {
+        i += 1;
+        if i % nshards != shard { continue; }
+        // thorough also places the phase in the upper half of the 16-bit divider (wrap within the period run)
+        let base = if opts.thorough && (old ^ new) & 1 == 1 { 65536 - 1024 } else { 0 };
+        let p_new = PERIODS[match new & 3 { 0 => 3, 1 => 0, 2 => 1, _ => 2 }];
+        let ops = vec![Op::Tac(old), Op::Run(vec![base + phase]), Op::Tima(tima), Op::Tma(0x42), Op::Tac(new),
+          Op::Run(vec![p_new])];
+        writeln!(w, "c13.phase ops={} | obs={}", enc(&ops), drive_api(&ops, false)).unwrap();
+      }}}}
+    }
+    "big" => {
+      std::panic::set_hook(Box::new(|_| {}));
+      let m32: u64 = 1 << 32;
+      let mut cases: Vec<Vec<Op>> = Vec::new();
+      for &cc in &[0u64, 1, 0xffff, 0x1234] {
+        for &n in &[0xffff_0000u64, 0xffff_0001, 0xffff_ffff - 0x1234, 0xffff_ffff - 0x1233, 0xffff_ffff,
+                    m32, m32 + 5, m32 + 0xffff_0000, m32 * 3 + 70000, 0xffff_fffe] {
+          // disabled: the fast path adds the whole (truncated) batch at once
+          cases.push(vec![Op::Tima(7), Op::Run(vec![cc]), Op::Run(vec![n]), Op::Run(vec![3])]);
+          cases.push(vec![Op::Tac(3), Op::Run(vec![cc]), Op::Run(vec![n])]);
+        }
+        // enabled: truncation only (a u32 overflow in the loop needs ~2^32 iterations; thorough does one)
+        for &n in &[m32, m32 + 5, m32 * 2 + 1025] {
+          cases.push(vec![Op::Tac(5), Op::Run(vec![cc]), Op::Run(vec![n]), Op::Run(vec![16])]);
+        }
+      }
+      if opts.thorough {
+        cases.push(vec![Op::Tac(4), Op::Tima(0xfe), Op::Tma(0x10), Op::Run(vec![0xffff]), Op::Run(vec![0xffff_0001])]);
+      }
+      for (i, ops) in cases.iter().enumerate() {
+        if i as u64 % nshards != shard { continue; }
+        writeln!(w, "c13.big ops={} | obs={}", enc(ops), drive_api(ops, true)).unwrap();
+      }
+    }
+    other => {
+      eprintln!("unknown c13 sub-stream {}", other);
+      std::process::exit(2);
+    }
+  }
 }
